@@ -177,6 +177,20 @@ def poll {α} (w : OWorld α) (i : Nat) : Option (OWorld α × PollRes α) :=
     let parked' := match r with | .pending => true | _ => false
     some ({ w with st := st', subs := w.subs.set i { s with observed := obs', fresh := fresh', parked := parked' } }, r)
 
+/-- the same poll with an explicit waker identity (a `next_ref()` future polls the subscriber with its own
+    task's waker); `poll w i = pollW w i i` -/
+def pollW {α} (w : OWorld α) (i wk : Nat) : Option (OWorld α × PollRes α) :=
+  match w.subs[i]? with
+  | none => none
+  | some s =>
+    if !s.alive then none else
+    let (r, obs', st') := w.st.pollUpdate s.observed wk
+    let fresh' := match r with | .ready _ => false | _ => s.fresh
+    let parked' := match r with | .pending => true | _ => false
+    some ({ w with st := st', subs := w.subs.set i { s with observed := obs', fresh := fresh', parked := parked' } }, r)
+
+theorem pollW_self {α} (w : OWorld α) (i : Nat) : w.pollW i i = w.poll i := rfl
+
 /-- `next_now` / `next_ref_now` (subscriber.rs:57-65, 92-96): marks as observed -/
 def nextNow {α} (w : OWorld α) (i : Nat) : Option (OWorld α × α) :=
   match w.subs[i]? with
